@@ -168,12 +168,8 @@ func runC05(c *Ctx) {
 		if _, ok := ana.Match(lowerStr, t); ok {
 			nLower++
 			r.Check(mustPass(fn, e.Instr.Block(), sameCase), "C05.checksum-flow.lower-iff", c.ipos(e.Instr), "the string is returned as built only when hrp == ToLower(hrp)")
-			if w, _ := ana.Find("call<*>(load(global<repo/pkg/bech32.charset>), _)", t); w != nil {
-				encodeFn = calleeOf(w)
-			}
-			if w, _ := ana.Find("call<*>(call<strings.ToLower>(p0), _)", t); w != nil {
-				createFn = calleeOf(w)
-			}
+			encodeFn = c.calleeMatching("call<*>(load(global<repo/pkg/bech32.charset>), _)", t)
+			createFn = c.calleeMatching("call<*>(call<strings.ToLower>(p0), slice(_, 0, _))", t)
 			continue
 		}
 		if _, ok := ana.Match("call<strings.ToUpper>("+lowerStr+")", t); ok {
